@@ -6,7 +6,6 @@ import (
 	"crypto/ed25519"
 	"crypto/rand"
 	"fmt"
-	"os"
 	"sort"
 	"strings"
 	"testing"
@@ -146,10 +145,8 @@ func c03Run(c c03Case) []*core.Violation {
 		if c.Unsignable == i+1 {
 			renderFails[i] = true
 		}
-		if c.DeleteFile == i+1 && len(b.FilePaths) > 0 {
-			for _, p := range b.FilePaths {
-				_ = os.Remove(p)
-			}
+		if c.DeleteFile == i+1 && len(b.FilePaths)+len(b.FSMaps) > 0 {
+			b.RemoveFiles()
 			renderFails[i] = true
 		}
 	}
